@@ -191,15 +191,20 @@ func syncMapOf(m *sync.Map) map[any]any {
 
 //verif:model (*sync.Map).Load
 func ModelSyncMapLoad(m *sync.Map, key any) (any, bool) {
+	Preempt() // each operation is atomic; another goroutine may run between two of them
 	v, ok := syncMapOf(m)[key]
 	return v, ok
 }
 
 //verif:model (*sync.Map).Store
-func ModelSyncMapStore(m *sync.Map, key, value any) { syncMapOf(m)[key] = value }
+func ModelSyncMapStore(m *sync.Map, key, value any) {
+	Preempt()
+	syncMapOf(m)[key] = value
+}
 
 //verif:model (*sync.Map).LoadOrStore
 func ModelSyncMapLoadOrStore(m *sync.Map, key, value any) (any, bool) {
+	Preempt()
 	mm := syncMapOf(m)
 	if v, ok := mm[key]; ok {
 		return v, true
